@@ -243,6 +243,27 @@ def r_copy(bs, cls, bits, ctx):
     return copy.copy(getattr(bs, cls)(bin=bits))
 
 
+@route('deepcopy', "__import__('copy').deepcopy(bitstring.{cls}(bin={bits!r}))")
+def r_deepcopy(bs, cls, bits, ctx):
+    import copy
+    return copy.deepcopy(getattr(bs, cls)(bin=bits))
+
+
+@route('pickle', "__import__('pickle').loads(__import__('pickle').dumps(bitstring.{cls}(bin={bits!r})))")
+def r_pickle(bs, cls, bits, ctx):
+    import pickle
+    return pickle.loads(pickle.dumps(getattr(bs, cls)(bin=bits)))
+
+
+@route('pickle_filewindow', "__import__('pickle').loads(__import__('pickle').dumps(bitstring.{cls}(filename=FILE(0, {bits!r}, True), length={n})))")
+def r_pickle_filewindow(bs, cls, bits, ctx):
+    import pickle
+    if not bits:
+        return None
+    by, off, n = embed(bits, 0)
+    return pickle.loads(pickle.dumps(getattr(bs, cls)(filename=ctx.file_for(by), length=n)))
+
+
 @route('from_mutated', "(lambda m: (m.append({lit!r}), m.__delitem__(slice(0, 3)), bitstring.{cls}(m))[2])(bitstring.BitArray('0b101'))")
 def r_from_mutated(bs, cls, bits, ctx):
     m = bs.BitArray('0b101')
